@@ -238,3 +238,111 @@ func c20R8(c *Ctx, r *Report) {
 			"after a recovered panic the writer can return nil (the error is assigned to a new local, not to the named result): writerManager takes that for a clean exit and never restarts the writer, so no further line reaches the adapter", c.pathString(p)...)
 	}
 }
+
+// c07R12: the schedule handler starts or promotes the task at the front of the
+// schedule only across a test that this task is due (the timer it slept on may
+// belong to a task that has left the schedule meanwhile).
+func c07R12(c *Ctx, r *Report) {
+	const rule = "C07-R12"
+	r.SetFloor(rule, 2)
+	fn := c.Func("modules.taskScheduleHandler")
+	if fn == nil {
+		r.Undecided(rule, "modules.taskScheduleHandler", "anchor function missing")
+		return
+	}
+	isNow := func(v ssa.Value) bool { _, ok := isCallTo(v, "time.Now"); return ok }
+	isDue := func(v ssa.Value) bool { return fieldLoadOf(v, "modules.Task", "executeAt") }
+	// accepted spellings of "not yet due": now.Before(executeAt), executeAt.After(now)  (passed when false)
+	notYet := Guard{Name: "front task is due (now is not before its executeAt)", Truthy: false, Match: func(b ssa.Value) bool {
+		call, ok := b.(*ssa.Call)
+		if !ok {
+			return false
+		}
+		a := call.Call.Args
+		switch calleeName(&call.Call) {
+		case "time.Time.Before":
+			return len(a) == 2 && isNow(a[0]) && isDue(a[1])
+		case "time.Time.After":
+			return len(a) == 2 && isDue(a[0]) && isNow(a[1])
+		}
+		return false
+	}}
+	// ... or "due": executeAt.Before(now) / now.After(executeAt) (passed when true) - not the repo's idiom, accepted for robustness
+	due := Guard{Name: "front task is due", Truthy: true, Match: func(b ssa.Value) bool {
+		call, ok := b.(*ssa.Call)
+		if !ok {
+			return false
+		}
+		a := call.Call.Args
+		switch calleeName(&call.Call) {
+		case "time.Time.After":
+			return len(a) == 2 && isNow(a[0]) && isDue(a[1])
+		case "time.Time.Before":
+			return len(a) == 2 && isDue(a[0]) && isNow(a[1])
+		}
+		return false
+	}}
+	n := 0
+	for _, callee := range []string{"modules.Task.StartASAP", "modules.Task.runWithLocking"} {
+		for _, ci := range callsIn(fn, callee) {
+			n++
+			c.RequireAny(r, rule, fmt.Sprintf("modules.taskScheduleHandler / %s #%d", strings.TrimPrefix(callee, "modules."), n), fn, ci, "the front task is due", []Guard{notYet, due})
+		}
+	}
+	if n == 0 {
+		r.Bad(rule, "modules.taskScheduleHandler / processing calls", "the schedule handler no longer starts or promotes tasks")
+	}
+}
+
+// c07R13: the queue slot is released by the end of the execution that was
+// started: the watcher waits on a context taken while the task lock was held,
+// not on Task.ctx, which the finished execution replaces.
+func c07R13(c *Ctx, r *Report) {
+	const rule = "C07-R13"
+	r.SetFloor(rule, 1)
+	fn := c.Func("modules.(*Task).runWithLocking")
+	if fn == nil {
+		r.Undecided(rule, "modules.(*Task).runWithLocking", "anchor function missing")
+		return
+	}
+	n := 0
+	for _, a := range fn.AnonFuncs {
+		if !funcHas(a, 0, isCallInstrTo("sync.WaitGroup.Done")) {
+			continue
+		}
+		n++
+		var bad ssa.Instruction
+		eachInstr(a, func(in ssa.Instruction) {
+			if u, ok := in.(*ssa.UnOp); ok && fieldLoadOf(u, "modules.Task", "ctx") && bad == nil {
+				bad = in
+			}
+		})
+		r.Check(bad == nil, rule, fnKey(a)+" / watcher does not read Task.ctx", "the watcher waits on a context captured by runWithLocking",
+			"the watcher goroutine reads Task.ctx itself: a quick execution has already replaced it by a fresh context nobody cancels, and the queue stays blocked until the execution-wait limit", posOf(c, bad))
+	}
+	// the captured context is read with the task lock held
+	held := LocksHeldAt(fn)
+	okCapture := false
+	eachInstr(fn, func(in ssa.Instruction) {
+		if u, ok := in.(*ssa.UnOp); ok && fieldLoadOf(u, "modules.Task", "ctx") && taskLockHeld(held[in]) {
+			// used by a closure?
+			for _, ref := range *u.Referrers() {
+				switch x := ref.(type) {
+				case *ssa.MakeClosure:
+					okCapture = true
+				case *ssa.Store:
+					// captured variable: the value is stored to a cell that a closure binds
+					if al, ok := x.Addr.(*ssa.Alloc); ok {
+						for _, r2 := range *al.Referrers() {
+							if _, isMC := r2.(*ssa.MakeClosure); isMC {
+								okCapture = true
+							}
+						}
+					}
+				}
+			}
+		}
+	})
+	r.Check(n > 0 && okCapture, rule, "modules.(*Task).runWithLocking / execution context captured under the task lock", "Task.ctx is read with t.lock held and handed to the watcher",
+		"runWithLocking does not hand the watcher a context read under the task lock")
+}
